@@ -36,6 +36,12 @@ def gen_case(rng, tier, idx):
     kind = rng.choice(["field", "field", "irr_neutral", "irr_off", "harvest", "combo", "combo"])
     if kind in ("irr_neutral",) or (kind == "combo" and rng.random() < 0.5):
         prof["irr_methods"] = [0]
+    if kind in ("field", "combo") and rng.random() < 0.5:
+        # the code paths that read bund / mulch / curve-number settings run on wet days: ponding, saturation excess backing
+        # up to the surface, runoff - make them happen (slowly draining soils, wet climates, storms, wet starts)
+        prof.update({"soils": ["Paddy", "Clay", "SiltClay", "SandyClay", "ClayLoam"], "archetypes": ["tropical", "temperate"], "station_p": 0.0,
+                     "event_kinds": ["storm", "storm", "wet_spell"], "events_per_year": 4.0, "sat_start_p": 0.5, "custom_soil_p": 0.0,
+                     "n_seasons": [1, 2, 3], "off_season_p": 0.7})
     spec = gen_spec(rng, prof)
     toggles = []
 
